@@ -67,6 +67,18 @@ def mtv(it, m: Mat, y):
     if m.transposed_of is not None:
         return mv(it, m.transposed_of, y)
     yv = _vec_of(y)
+    if it.config.get("expand_mtv") and isinstance(m.rows, int):
+        # definition of the transposed product for a matrix with a concrete number of rows
+        e = entry_fn(it, m)
+        rows = m.rows
+
+        def col(j):
+            acc = z3.RealVal(0)
+            for i in range(rows):
+                acc = acc + ops._real(e(i, j)) * ops._real(yv.f(i))
+            return acc
+
+        return Arr.new(Vec(m.cols, col, "real"))
     f = _fn(it, "mtv", mat_id(it, m).sort(), _RA, z3.IntSort(), z3.RealSort())
     A = _real_array(yv)
     M = mat_id(it, m)
@@ -177,3 +189,230 @@ def shallow_copy(it, m: Mat):
 
 
 Mat.data_arr = None
+
+
+# ----------------------------------------------------------------------------------------------------
+# entry-wise view (used by C13 / C14 / C04): every matrix has an entry function; abstract ones get an
+# uninterpreted  ent_<name>(i, j)
+
+
+def entry_fn(it, m: Mat):
+    if m.entry is not None:
+        return m.entry
+    if m.transposed_of is not None:
+        e = entry_fn(it, m.transposed_of)
+        return lambda i, j: e(j, i)
+    f = _fn(it, "ent_" + m.name, z3.IntSort(), z3.IntSort(), z3.RealSort())
+    return lambda i, j: f(_iv(i), _iv(j))
+
+
+def _iv(i):
+    return z3.IntVal(i) if isinstance(i, int) else i
+
+
+def sp_eye(it, n, m=None, dtype=None, **k):
+    cols = n if m is None else m
+    return Mat(n, cols, lambda i, j: z3.If(_iv(i) == _iv(j), z3.RealVal(1), z3.RealVal(0)), name=it.path.fresh_name("I"))
+
+
+def sp_diags(it, diagonals, offsets=0, shape=None, dtype=None, **k):
+    from .values import ListCell
+
+    d = diagonals.val if isinstance(diagonals, ListCell) else diagonals
+    if not (isinstance(d, list) and len(d) == 1) or offsets != 0 or shape is None:
+        raise Unsupported("sparse.diags form")
+    v = d[0]
+    return Mat(shape[0], shape[1], lambda i, j: z3.If(_iv(i) == _iv(j), ops._real(v), z3.RealVal(0)), name=it.path.fresh_name("Dg"))
+
+
+def sp_bmat(it, blocks, format=None, dtype=None):
+    from .values import ListCell
+
+    rows = blocks.val if isinstance(blocks, ListCell) else blocks
+    grid = [(r.val if isinstance(r, ListCell) else r) for r in rows]
+    nr, nc = len(grid), len(grid[0])
+    # block sizes from the first non-None block in each row / column
+    rh = []
+    for r in range(nr):
+        b = next((x for x in grid[r] if x is not None), None)
+        if b is None:
+            raise Unsupported("bmat with an empty block row")
+        rh.append(b.rows)
+    cw = []
+    for c in range(nc):
+        b = next((grid[r][c] for r in range(nr) if grid[r][c] is not None), None)
+        if b is None:
+            raise Unsupported("bmat with an empty block column")
+        cw.append(b.cols)
+    roff = [0]
+    for h in rh:
+        roff.append(ops.scalar_bin("+", roff[-1], h))
+    coff = [0]
+    for w in cw:
+        coff.append(ops.scalar_bin("+", coff[-1], w))
+    ents = [[(entry_fn(it, grid[r][c]) if grid[r][c] is not None else None) for c in range(nc)] for r in range(nr)]
+
+    def entry(i, j):
+        res = z3.RealVal(0)
+        for r in reversed(range(nr)):
+            for c in reversed(range(nc)):
+                e = ents[r][c]
+                val = ops._real(e(ops.scalar_bin("-", i, roff[r]), ops.scalar_bin("-", j, coff[c]))) if e is not None else z3.RealVal(0)
+                inblk = ops.zand(ops.scalar_cmp(">=", i, roff[r]), ops.scalar_cmp("<", i, roff[r + 1]), ops.scalar_cmp(">=", j, coff[c]), ops.scalar_cmp("<", j, coff[c + 1]))
+                res = ops.zite(inblk, val, res)
+        return res
+
+    m = Mat(roff[-1], coff[-1], entry, name=it.path.fresh_name("B"), fmt=format or "coo")
+    m.blocks = grid
+    return m
+
+
+def install(it):
+    it.lib["scipy.sparse.eye"] = sp_eye
+    it.lib["scipy.sparse.diags"] = sp_diags
+    it.lib["scipy.sparse.bmat"] = sp_bmat
+    it.lib["scipy.sparse.issparse"] = lambda it_, m: isinstance(m, Mat)
+
+
+_old_scale = mat_scale
+
+
+def mat_scale(it, m: Mat, c):  # noqa: F811  (entry-wise version)
+    e = entry_fn(it, m)
+    r = Mat(m.rows, m.cols, lambda i, j: ops.scalar_bin("*", c, e(i, j)), name=f"({_nm(c)}*{m.name})")
+    r.scaled = (c, m)
+    return r
+
+
+_old_binop = mat_binop
+
+
+def mat_binop(it, op, a, b, frame, node):  # noqa: F811
+    if isinstance(op, (ast.Add, ast.Sub)) and isinstance(a, Mat) and isinstance(b, Mat):
+        ea, eb = entry_fn(it, a), entry_fn(it, b)
+        sym = "+" if isinstance(op, ast.Add) else "-"
+        r = Mat(a.rows, a.cols, lambda i, j: ops.scalar_bin(sym, ea(i, j), eb(i, j)), name=f"({a.name}{sym}{b.name})")
+        r.sum_of = (a, b, 1 if sym == "+" else -1)
+        return r
+    return _old_binop(it, op, a, b, frame, node)
+
+
+def product(it, a: Mat, b: Mat):  # noqa: F811
+    """A*B: entries are an uninterpreted bilinear form of the two factors (sums are never unfolded)"""
+    f = _fn(it, "matprod", mat_id(it, a).sort(), mat_id(it, a).sort(), z3.IntSort(), z3.IntSort(), z3.RealSort())
+    A, B = mat_id(it, a), mat_id(it, b)
+    r = Mat(a.rows, b.cols, lambda i, j: f(A, B, _iv(i), _iv(j)), name=f"({a.name}*{b.name})")
+    r.factors = (a, b)
+    return r
+
+
+# ----------------------------------------------------------------------------------------------------
+# COO triplets, format conversions and their aliasing (measured on SciPy 1.18, re-measured natively)
+
+
+def coo_from_triplets(it, data, row, col, shape, name=None, region="FRESH", fmt="coo"):
+    """Matrix given by COO triplets (row[k], col[k], data[k]), k < nnz.  entry(i,j) sums duplicates when nnz is
+    concrete; for symbolic nnz the entry function stays abstract and only the triplets are known."""
+    nnz = data.n
+    m = Mat(shape[0], shape[1], None, name=name or it.path.fresh_name("C"), region=region, fmt=fmt)
+    m.coo = (nnz, row, col, data)
+    if isinstance(nnz, int):
+        rv, cv, dv = row.vec(), col.vec(), data.vec()
+
+        def entry(i, j):
+            res = z3.RealVal(0)
+            for k in range(nnz):
+                res = res + z3.If(z3.And(ops.to_term(rv.f(k)) == _iv(i), ops.to_term(cv.f(k)) == _iv(j)), ops._real(dv.f(k)), z3.RealVal(0))
+            return res
+
+        m.entry = entry
+    return m
+
+
+def sp_coo_matrix(it, arg, shape=None, dtype=None):
+    from .values import ListCell
+
+    if isinstance(arg, tuple) and len(arg) == 2 and isinstance(arg[1], tuple):
+        data, (row, col) = arg
+        conv = lambda v, kind: v if isinstance(v, Arr) else _empty(kind)  # python [] -> empty array
+        return coo_from_triplets(it, conv(data, "real"), conv(row, "int"), conv(col, "int"), shape)
+    if isinstance(arg, Mat):
+        return convert(it, arg, "tocoo")
+    raise Unsupported("coo_matrix constructor form")
+
+
+def _empty(kind):
+    from .values import ListCell
+
+    return Arr.new(Vec(0, lambda i: lift(0, kind), kind))
+
+
+def user_matrix(it, rows, cols, name, fmt="coo", region="USER", nnz=None):
+    """A matrix returned by a user callback in the given sparse format, with symbolic triplets."""
+    p = it.path
+    nnz = p.int(name + "_nnz") if nnz is None else nnz
+    if not isinstance(nnz, int):
+        p.assume(nnz >= 0)
+    mk = lambda nm, sort, kind: Arr.new(Vec(nnz, (lambda A: (lambda k: z3.Select(A, _iv(k))))(z3.Array(p.fresh_name(name + nm), z3.IntSort(), sort)), kind), region=region)
+    row, col, data = mk("_row", z3.IntSort(), "int"), mk("_col", z3.IntSort(), "int"), mk("_data", z3.RealSort(), "real")
+    rv, cv = row.vec(), col.vec()
+    p.add_ufact(UFact(1, lambda k: z3.And(rv.f(k) >= 0, rv.f(k) < rows, cv.f(k) >= 0, cv.f(k) < cols), [(0, nnz)], "coo-coordinates-in-range"))
+    m = coo_from_triplets(it, data, row, col, (rows, cols), name=name, region=region, fmt=fmt)
+    return m
+
+
+def convert(it, m: Mat, how, *a, **k):  # noqa: F811
+    hook = it.hooks.get("convert")
+    if hook is not None:
+        r = hook(it, m, how, a, k)
+        if r is not None:
+            return r
+    if m.coo is None:
+        return m
+    target = {"tocoo": "coo", "tocsr": "csr", "tocsc": "csc"}.get(how, a[0] if a else "coo")
+    copy = bool(k.get("copy", False))
+    nnz, row, col, data = m.coo
+    if target == m.fmt and not copy:
+        return m  # conversion to its own format returns the receiver
+    if how == "tocoo" and m.fmt == "csr" and not copy:
+        # csr.tocoo(): new container, .data SHARES memory with the receiver
+        r = coo_from_triplets(it, Arr(data.cell, data.lo, data.n), Arr.new(row.vec()), Arr.new(col.vec()), (m.rows, m.cols), name=m.name, region=m.region, fmt="coo")
+        r.entry = m.entry
+        r.name = m.name
+        return r
+    # every other conversion (csc.tocoo, x.tocsr/x.tocsc from another format, copy=True) is a fresh copy
+    r = coo_from_triplets(it, Arr.new(data.vec()), Arr.new(row.vec()), Arr.new(col.vec()), (m.rows, m.cols), name=m.name, region="FRESH", fmt=target)
+    r.entry = m.entry
+    return r
+
+
+_old_attr = mat_attr
+
+
+def mat_attr(it, m: Mat, name):  # noqa: F811
+    if m.coo is not None and name in ("row", "col", "data"):
+        return {"row": m.coo[1], "col": m.coo[2], "data": m.coo[3]}[name]
+    if name == "nnz" and m.coo is not None:
+        return m.coo[0]
+    if name == "copy":
+        from .interp import PyFunc
+
+        return PyFunc(lambda it_: convert(it_, m, "copy", m.fmt, copy=True), "spmatrix.copy")
+    return _old_attr(it, m, name)
+
+
+def _install2(it):
+    it.lib["scipy.sparse.coo_matrix"] = sp_coo_matrix
+    it.lib["scipy.sparse.csr_matrix"] = lambda it_, arg, shape=None, dtype=None: _zero_mat(it_, arg, "csr") if isinstance(arg, tuple) and len(arg) == 2 and not isinstance(arg[1], tuple) else sp_coo_matrix(it_, arg, shape, dtype)
+
+
+def _zero_mat(it, shape, fmt):
+    return coo_from_triplets(it, _empty("real"), _empty("int"), _empty("int"), shape, fmt=fmt)
+
+
+_install1 = install
+
+
+def install(it):  # noqa: F811
+    _install1(it)
+    _install2(it)
